@@ -238,10 +238,10 @@ def _run_case(spec):
                   (f'Lie_beta:s_u:w={w0:.4g}', lambda r: r.Lie_beta(F['V'].copy(), 's_u', weight=w0)),
                   (f'Lie_beta:s_dd:w={w0:.4g}', lambda r: r.Lie_beta(F['T'].copy(), 's_dd', weight=w0)),
                   ('s_covd:u', lambda r: r.s_covd(F['V'].copy(), 'u')),
-                  ('s_div:dd', lambda r: r.s_div(F['T'].copy(), 'dd')),
-                  ('st_covd:u', lambda r: r.st_covd(F['V4'].copy(), F['dV4'][0].copy(), 'u'))]
+                  ('s_div:dd', lambda r: r.s_div(F['T'].copy(), 'dd'))]
         for lab, fn in firsts:
-            if lab not in exd:
+            # (component inputs: that is where nothing is assembled beforehand)
+            if lab not in exd or not spec.get('components'):
                 continue
             _, rel3 = c04.evaluate(spec, g, [])
             try:
